@@ -877,7 +877,68 @@ def rule_rays(ctx):
                       bad_what="rays[sq][%s] is not the geometric ray for %d square(s), e.g. %s (got, expected)" % (d, len(bad), bad[:3]))
 
 
-RULES = [("rays", rule_rays), ("magic", rule_magic), ("scheme", rule_scheme), ("mask-edges", rule_mask_edges), ("ray-walk", rule_ray_walk), ("leapers", rule_leapers), ("queen", rule_queen), ("subset-enum", rule_subset_enum)]
+OPS = {"BitAnd": "bitand", "BitOr": "bitor", "BitXor": "bitxor", "Mul": "wrapping_mul", "Shl": "checked_shl", "Shr": "shr", "Add": "checked_add", "Sub": "saturating_sub"}
+
+
+def rule_bitboard_ops(ctx):
+    """The Bitboard newtype's operators are the u64 operators of the same name on the wrapped word (everything else in this
+    property reasons about `&`, `|`, `<<` ... on bitboards as if they were the integer operations)."""
+    ix = ctx.ix
+    n = 0
+    for k in sorted(ix.bodies):
+        b = ix.bodies[k]
+        m = re.match(r"^<board::bitboard::Bitboard as std::ops::(\w+?)(Assign)?(<.*>)?>::(\w+)$", k)
+        if not m or b.kind != "fn":
+            continue
+        op, assign = m.group(1), bool(m.group(2))
+        if op in ("Deref", "DerefMut"):
+            continue
+        n += 1
+        ctx.functions.add(k)
+        r = ctx.sym(b).local(0)
+        ok = False
+        why = expr_str(r)[:90]
+        if op == "Not":
+            ok = r[0] == "agg" and r[3] and r[3][0] == ("un", "Not", ("field", ("arg", "self"), "0"))
+        elif assign:
+            # forwards to the std assign operator on the word, or to its own sibling taking a u64, or assigns self = self OP rhs
+            calls = [strip_generics(t.get("callee") or "") for _bi, t in b.calls()]
+            low = OPS.get(op, op.lower()).replace("checked_", "").replace("wrapping_", "").replace("saturating_", "")
+            ok = len(calls) >= 1 and all(low in c.lower() or "unwrap_or" in c for c in calls) and len(b.blocks) <= 4
+            why = str(calls)
+        elif op in OPS:
+            inner = r[3][0] if r[0] == "agg" and r[3] else None
+            if inner is not None and inner[0] == "call" and inner[1].endswith("Option::unwrap_or") and inner[2][1][:2] == ("const", 0):
+                inner = inner[2][0]
+            want = OPS[op]
+            if inner is not None and inner[0] == "call" and (inner[1].endswith("::" + want) or inner[1].endswith(">::" + want.replace("wrapping_", "").replace("checked_", "").replace("saturating_", ""))):
+                a0, a1 = inner[2][0], inner[2][1]
+                ok = a0 == ("field", ("arg", "self"), "0") and a1 in (("arg", "rhs"), ("field", ("arg", "rhs"), "0"))
+            elif inner is not None and inner[0] == "bin" and inner[1].replace("WithOverflow", "").replace("Unchecked", "") == op:
+                ok = inner[2] == ("field", ("arg", "self"), "0") and inner[3] in (("arg", "rhs"), ("field", ("arg", "rhs"), "0"))
+        else:
+            continue
+        ctx.check(ok, "bitboard-op:%s" % k.split(" as ")[1], "Bitboard %s%s is the u64 operation on the wrapped word" % (op, "Assign" if assign else ""), b.where(0),
+                  bad_what="the Bitboard operator %s%s is `%s`, not the u64 operation of that name on (self.0, rhs)" % (op, "Assign" if assign else "", why))
+    ctx.floor("Bitboard operator impls", n, 20)
+    fb = ctx.body("<board::bitboard::Bitboard as std::convert::From<board::square::Square>>::from")
+    r = ctx.sym(fb).local(0)
+    bad = []
+    for sq in range(64):
+        try:
+            v = fold_tree(ix, r, {"square": {"rank": sq // 8, "file": sq % 8}, "square.rank": sq // 8, "square.file": sq % 8})
+        except Undef as u:
+            bad.append((sq, str(u)))
+            break
+        if v != 1 << sq:
+            bad.append((G.square_name(sq), v))
+    ctx.check(not bad, "bitboard-of-square", "Bitboard::from(square) is the single bit rank*8+file for all 64 squares", fb.where(0), bad_what="Bitboard::from(square) is wrong for %s" % bad[:3])
+    ie = ctx.body("board::bitboard::Bitboard::is_empty")
+    r = ctx.sym(ie).local(0)
+    ctx.check(r == ("bin", "Eq", ("field", ("arg", "self"), "0"), ("const", 0, "u64")), "bitboard-is_empty", "is_empty() is `word == 0`", ie.where(0), bad_what="is_empty() is `%s`" % expr_str(r))
+
+
+RULES = [("bitboard-ops", rule_bitboard_ops), ("rays", rule_rays), ("magic", rule_magic), ("scheme", rule_scheme), ("mask-edges", rule_mask_edges), ("ray-walk", rule_ray_walk), ("leapers", rule_leapers), ("queen", rule_queen), ("subset-enum", rule_subset_enum)]
 
 
 def run(tier):
